@@ -414,7 +414,10 @@ class _Shape:
         if self.region_type in ['polygon', 'line']:
             # have to special-case polygon in the phys coord case
             # b/c can't typecheck when iterating as in sky coord case
-            coords = [PixCoord(self.coord[0::2], self.coord[1::2])]
+            # as for the other shapes, pixel coordinates may carry a
+            # unit suffix (the serializer writes one); use the values
+            temp = [getattr(_, 'value', _) for _ in self.coord]
+            coords = [PixCoord(temp[0::2], temp[1::2])]
         else:
             temp = [_.value for _ in self.coord]
             coord = PixCoord(temp[0], temp[1])
